@@ -46,6 +46,8 @@ PROPS["C18"] = dict(
                 "gars_decode_encode (all cells, precisions, centerp) and geohash_decode_encode / geohash_decode_encode46 (all cells, all lengths). "
                 "geohash_scale_contains (division-based scale step: Dy.divTo is proved to be the correctly rounded quotient, Proofs/DivTo.lean divTo_isRN; the "
                 "constants 180/2^45, 90/2^45, the pole adjustment and the addition of 2^45 are proved exact). "
+                "End to end on the exact cell: gars_cell_contains and geohash_cell_contains (the decoded cell of the exact code contains the prepared point, "
+                "every accepted finite position, every precision/length). "
                 "Not proved: scale_contains for the multi-step OSGB scale; decode∘encode for Georef/OSGB (correspondence only)."),
     level_note=("alphabets and integer constants of all four classes regenerated from the sources each run; hand-written models of Forward/Reverse; "
                 "pow(10,k) and integer→double conversions assumed exact (they are, for the ranges used)"),
